@@ -23,7 +23,7 @@ def lraRow (p : Pt) : Row :=
 
 def lraCols (fn : RangeFn) (d : Nat) : List Expr :=
   [bucketCol "time_series.timestamp_ns" d, simpleCol "fingerprint" "fingerprint", emptyStr,
-   .col (lraValue fn (secLit d)) "value"]
+   .col (lraValue fn (.int d)) "value"]
 
 theorem lra_aliasVals (o : Oracles) (env : Env) (fn : RangeFn) (d : Nat) (hd : 0 < d) (s : Sample) :
     aliasVals o env (lraCols fn d) (qualify "time_series" (sampleRow "_string" s)) =
@@ -31,10 +31,10 @@ theorem lra_aliasVals (o : Oracles) (env : Env) (fn : RangeFn) (d : Nat) (hd : 0
   have hd' : (d : Int) ≠ 0 := by omega
   have hd0 : d ≠ 0 := by omega
   cases fn <;>
-    simp [lraCols, aliasVals, hasAgg, aggNames, lraValue, countF, bytesF, secLit, bucketCol, simpleCol, emptyStr, evalE, evalEs,
+    simp [lraCols, aliasVals, hasAgg, aggNames, lraValue, perSecond, countF, bytesF, bucketCol, simpleCol, emptyStr, evalE, evalEs,
       qualify, sampleRow, Row.get, List.lookup, mulVal, bucketOf, hd0]
 
-theorem lra_group_row (o : Oracles) (env : Env) (fn : RangeFn) (d : Nat) (hms : 1000000 ∣ d) (hd : 0 < d)
+theorem lra_group_row (o : Oracles) (env : Env) (fn : RangeFn) (d : Nat) (hd : 0 < d)
     (k : Int × Int) (grp : List Sample) (s0 : Sample) (rest : List Sample) (hg : grp = s0 :: rest)
     (hk : lraKeyOf d s0 = k) :
     grow o env (lraCols fn d) (grp.map (fun s => qualify "time_series" (sampleRow "_string" s))) =
@@ -49,7 +49,7 @@ theorem lra_group_row (o : Oracles) (env : Env) (fn : RangeFn) (d : Nat) (hms : 
       apply List.map_congr_left
       intro s _
       rw [lra_aliasVals o env fn d hd]
-      simp [qualify, sampleRow, Row.get, List.lookup]) hms hd
+      simp [qualify, sampleRow, Row.get, List.lookup]) hd
   subst hg
   have hk1 : s0.fp = k.1 := by rw [← hk]; rfl
   have hk2 : bucketOf d s0.ts = k.2 := by rw [← hk]; rfl
@@ -58,11 +58,11 @@ theorem lra_group_row (o : Oracles) (env : Env) (fn : RangeFn) (d : Nat) (hms : 
   rw [hval]
   cases fn <;>
   simp [scope, aliasVals, hasAgg, aggNames, evalAgg, aggCall, evalE, evalEs, qualify, sampleRow, Row.get, List.lookup, mulVal,
-    bucketOf, hd0, ← hk1, ← hk2, lraValue, countF, bytesF, secLit]
+    bucketOf, hd0, ← hk1, ← hk2, lraValue, perSecond, countF, bytesF]
 
 /-- **range stage (LRAPlanner).** Over the entries of `agg_a`, the select returns one row per (stream, range bucket) in
     order of first occurrence, carrying the range function of the direct reading. -/
-theorem lra_eval (o : Oracles) (db : Db) (env : Env) (fn : RangeFn) (d : Nat) (hms : 1000000 ∣ d) (hd : 0 < d)
+theorem lra_eval (o : Oracles) (db : Db) (env : Env) (fn : RangeFn) (d : Nat) (hd : 0 < d)
     (es : List Sample) (hA : env.lookup (.named "agg_a") = some (es.map (sampleRow "_string")))
     (ws : List (Alias × Sel)) (hv : Option Expr) :
     evalBodyA o db env (.mk ws false (lraCols fn d) (some (.col (.withRef (.named "agg_a")) "time_series")) [] none none
@@ -87,7 +87,7 @@ theorem lra_eval (o : Oracles) (db : Db) (env : Env) (fn : RangeFn) (d : Nat) (h
   intro g hg
   obtain ⟨⟨s0, rest, hgr, hk0⟩, _⟩ := groupsBy_head (lraKeyOf d) es g hg
   simp only [Function.comp_apply]
-  exact lra_group_row o env fn d hms hd g.1 g.2 s0 rest hgr hk0
+  exact lra_group_row o env fn d hd g.1 g.2 s0 rest hgr hk0
 
 theorem lraRow_rep (pts : List Pt) (hl : ∀ p ∈ pts, p.labels = .null) : Rep (pts.map lraRow) pts := by
   apply rep_of_map
@@ -151,19 +151,19 @@ theorem having_rep (o : Oracles) (env : Env) (cm : Option Comparison) (T : Table
     exact comparison_holds o env r p.value c hx
 
 /-! ### the final select (`MainFinalizerPlanner.processMatrix`) -/
-def finalCols : List Expr :=
+def matrixFinalCols : List Expr :=
   [simpleCol "prefinal.fingerprint" "fingerprint", simpleCol "prefinal.labels" "labels",
    simpleCol "prefinal.value" "value", simpleCol "prefinal.timestamp_ns" "timestamp_ns"]
 
 theorem projectA_final (o : Oracles) (env : Env) (r : Row) (h : StdRow r) :
-    projectA o env finalCols (qualify "prefinal" r) =
+    projectA o env matrixFinalCols (qualify "prefinal" r) =
       [("fingerprint", r.get "fingerprint"), ("labels", r.get "labels"), ("value", r.get "value"),
        ("timestamp_ns", r.get "timestamp_ns")] := by
   have e1 := get_q "prefinal" "fingerprint" "prefinal.fingerprint" rfl r h
   have e2 := get_q "prefinal" "labels" "prefinal.labels" rfl r h
   have e3 := get_q "prefinal" "value" "prefinal.value" rfl r h
   have e4 := get_q "prefinal" "timestamp_ns" "prefinal.timestamp_ns" rfl r h
-  simp [projectA, finalCols, scope, aliasVals, hasAgg, simpleCol, colName, get_cons, e1, e2, e3, e4]
+  simp [projectA, matrixFinalCols, scope, aliasVals, hasAgg, simpleCol, colName, get_cons, e1, e2, e3, e4]
 
 theorem normRow_get (r : Row) (k : String) (hk : k ≠ "value") : (normRow r).get k = r.get k := by
   unfold Row.get normRow
@@ -187,10 +187,10 @@ theorem rowLe_normRow (a b : Row) : rowLe matrixKeys (normRow a) (normRow b) = r
 /-- **final select.** ORDER BY fingerprint, timestamp_ns over the points, values read as numbers. -/
 theorem final_eval (o : Oracles) (db : Db) (env : Env) (T : Table) (pts : List Pt) (h : Rep T pts)
     (hT : env.lookup (.named "prefinal") = some T) (ws : List (Alias × Sel)) :
-    (evalBodyA o db env (.mk ws false finalCols (some (.withRef (.named "prefinal"))) [] none none [] none
+    (evalBodyA o db env (.mk ws false matrixFinalCols (some (.withRef (.named "prefinal"))) [] none none [] none
         [.orderBy (.raw "fingerprint") .asc, .orderBy (.raw "timestamp_ns") .asc] none)).map normRow =
       sortBy (rowLe matrixKeys) (pts.map Pt.row) := by
-  have hagg : (finalCols.any hasAgg) = false := by decide
+  have hagg : (matrixFinalCols.any hasAgg) = false := by decide
   simp only [evalBodyA, sourceRowsA, sourceRows, hT, Option.getD_some, List.foldl_nil, optB, Bool.and_self, filter_true,
     List.isEmpty_nil, hagg, Bool.not_false, if_true, Alias.text, List.isEmpty_cons, Bool.false_eq_true, if_false,
     orderKeys, List.map_map]
